@@ -295,4 +295,179 @@ theorem idx_lt_iff_lex : ∀ (p : Nat) (g h : List Nat), g.length = p → h.leng
       have h3 : (x == y) = false := by simp; omega
       simp [h1, h2, h3]
 
+/-! ## outside the range -/
+
+theorem convertLoopW_length : ∀ (p M L : Nat), (convertLoopW p M L).length = p := by
+  intro p
+  induction p with
+  | zero => intro M L; rfl
+  | succ p ih => intro M L; simp [convertLoopW, ih]
+
+theorem convertW_length (i p : Nat) : (convertW i p).length = p := convertLoopW_length _ _ _
+
+/-- an allele `≥ 16` anywhere in the (sorted) vector makes the packing loop throw "Maximum alleles exceeded" -/
+theorem packLoopC_alleles (p : Nat) (hp : p ≤ 16) : ∀ (rest : List Nat) (i : Nat) (g : Genotype), i + rest.length = p →
+    (∃ y ∈ rest, y ≥ 16) → packLoopC p i rest g = .error .alleles := by
+  intro rest
+  induction rest with
+  | nil => intro i g _ h; obtain ⟨y, hy, _⟩ := h; simp at hy
+  | cons a as ih =>
+    intro i g hl h
+    simp only [List.length_cons] at hl
+    simp only [packLoopC]
+    by_cases c : a ≥ MAX_ALLELES
+    · rw [if_pos c]
+    · rw [if_neg c]
+      have hs : g.setPositionC (p - i - 1) a = .ok (g.setPosition (p - i - 1) a) := by
+        unfold Genotype.setPositionC
+        rw [if_neg (by unfold MAX_PLOIDY; omega), if_neg c]
+      rw [hs]
+      simp only []
+      apply ih (i + 1) _ (by omega)
+      obtain ⟨y, hy, hy16⟩ := h
+      rcases List.mem_cons.mp hy with rfl | hy'
+      · exact absurd hy16 (by unfold MAX_ALLELES at c; omega)
+      · exact ⟨y, hy', hy16⟩
+
+theorem findAlleleW_ge_pred (pth L M : Nat) (hM : M < 4294967296) :
+    ∀ a, 1 ≤ a → a ≤ M → a - 1 ≤ findAlleleW pth L M a := by
+  intro a
+  induction h : M - a generalizing a with
+  | zero =>
+    intro h1 haM
+    unfold findAlleleW
+    have c1 : binomU (decU32 (pth + a)) pth ≥ L ∨ a ≥ M := Or.inr (by omega)
+    simp only [c1, if_true]
+    split
+    · rw [decU32_pos a h1 (by omega)]
+    · omega
+  | succ d ih =>
+    intro h1 haM
+    unfold findAlleleW
+    by_cases c1 : binomU (decU32 (pth + a)) pth ≥ L ∨ a ≥ M
+    · simp only [c1, if_true]
+      split
+      · rw [decU32_pos a h1 (by omega)]
+      · omega
+    · simp only [c1, if_false]
+      have := ih (a + 1) (by omega) (by omega) (by omega)
+      omega
+
+/-- if the blocks of all alleles `< A` end at or before `leftover`, the search returns an allele `≥ A` – whatever the
+(possibly wrapped) binomials beyond `A` are -/
+theorem findAlleleW_ge (pth L M A : Nat) (hp : 1 ≤ pth) (hE : Exact pth A) (hL : choose (pth + A - 1) pth ≤ L)
+    (hAM : A ≤ M) (hM : M < 4294967296) :
+    ∀ a, a ≤ A → A ≤ findAlleleW pth L M a := by
+  intro a
+  induction h : A - a generalizing a with
+  | zero =>
+    intro ha
+    have haA : a = A := by omega
+    subst haA
+    unfold findAlleleW
+    rw [hE a (Nat.le_refl _)]
+    by_cases c1 : choose (pth + a - 1) pth ≥ L ∨ a ≥ M
+    · simp only [c1, if_true]
+      rw [if_neg (by omega)]
+    · simp only [c1, if_false]
+      have := findAlleleW_ge_pred pth L M hM (a + 1) (by omega) (by omega)
+      omega
+  | succ d ih =>
+    intro ha
+    unfold findAlleleW
+    rw [hE a ha]
+    have hlt : choose (pth + a - 1) pth < L := by
+      have h1 := choose_strict pth a hp
+      have h2 : choose (pth + a) pth ≤ choose (pth + A - 1) pth := Nat.choose_le_choose _ (by omega)
+      omega
+    have c1 : ¬ (choose (pth + a - 1) pth ≥ L ∨ a ≥ M) := by omega
+    simp only [c1, if_false]
+    exact ih (a + 1) (by omega) (by omega)
+
+/-- **beyond the count** (ploidy ≤ 14): every 32-bit index that is not the index of a genotype over 16 alleles is
+rejected with "Maximum alleles exceeded" – also where the binomials of larger alleles wrap around -/
+theorem ofIndex_beyond (i p : Nat) (hp1 : 1 ≤ p) (hp : p ≤ 14) (hi : choose (p + 15) p ≤ i) (hi2 : i < 4294967296) :
+    Genotype.ofIndex i p = .error .alleles := by
+  obtain ⟨q, rfl⟩ : ∃ q, p = q + 1 := ⟨p - 1, by omega⟩
+  have h16 : 16 ≤ i := by
+    have := le_choose (q + 1) 16 (by omega)
+    have e : q + 1 + 16 - 1 = q + 1 + 15 := by omega
+    rw [e] at this; omega
+  have hr : 16 ≤ findAlleleW (q + 1) i i 0 :=
+    findAlleleW_ge (q + 1) i i 16 (by omega) (exact_of_small _ _ (by omega) (by omega) (by omega))
+      (by have e : q + 1 + 16 - 1 = q + 1 + 15 := by omega
+          rw [e]; exact hi) h16 hi2 0 (by omega)
+  have hmem : ∃ y ∈ sortAsc (convertW i (q + 1)), y ≥ 16 := by
+    refine ⟨findAlleleW (q + 1) i i 0, ?_, hr⟩
+    rw [mem_sortAsc]
+    unfold convertW
+    have e : i % 4294967296 = i := by omega
+    rw [e]
+    simp [convertLoopW]
+  have hpack := packLoopC_alleles (q + 1) (by omega) (sortAsc (convertW i (q + 1))) 0 ⟨0⟩
+    (by rw [sortAsc_length, convertW_length]; omega) hmem
+  unfold Genotype.ofIndex
+  rw [hpack]
+
+theorem packLoopC_16 : ∀ (rest : List Nat) (i : Nat) (g : Genotype), i + rest.length = 16 →
+    (∃ g', packLoopC 16 i rest g = .ok g') ∨ packLoopC 16 i rest g = .error .alleles := by
+  intro rest
+  induction rest with
+  | nil => intro i g _; exact Or.inl ⟨g, rfl⟩
+  | cons a as ih =>
+    intro i g hl
+    simp only [List.length_cons] at hl
+    simp only [packLoopC]
+    by_cases c : a ≥ MAX_ALLELES
+    · rw [if_pos c]; exact Or.inr rfl
+    · rw [if_neg c]
+      have hs : g.setPositionC (16 - i - 1) a = .ok (g.setPosition (16 - i - 1) a) := by
+        unfold Genotype.setPositionC
+        rw [if_neg (by unfold MAX_PLOIDY; omega), if_neg c]
+      rw [hs]
+      exact ih (i + 1) _ (by omega)
+
+/-- **ploidy ≥ 16 is never accepted** by the index constructor (16: `set_ploidy` throws "Invalid set allele";
+≥ 17: `set_position` throws "Invalid set position"; or an allele ≥ 16 is met first) -/
+theorem ofIndex_ploidy_ge_16 (i p : Nat) (hp : 16 ≤ p) :
+    Genotype.ofIndex i p = .error .alleles ∨ Genotype.ofIndex i p = .error .setPos ∨
+      Genotype.ofIndex i p = .error .setAllele := by
+  have hlen : (sortAsc (convertW i p)).length = p := by rw [sortAsc_length, convertW_length]
+  unfold Genotype.ofIndex
+  generalize sortAsc (convertW i p) = s at hlen
+  by_cases h17 : 17 ≤ p
+  · cases s with
+    | nil => simp at hlen; omega
+    | cons a as =>
+      simp only [packLoopC]
+      by_cases c : a ≥ MAX_ALLELES
+      · rw [if_pos c]; exact Or.inl rfl
+      · rw [if_neg c]
+        have hs : (⟨0⟩ : Genotype).setPositionC (p - 0 - 1) a = .error .setPos := by
+          unfold Genotype.setPositionC
+          rw [if_pos (by unfold MAX_PLOIDY; omega)]
+        rw [hs]; exact Or.inr (Or.inl rfl)
+  · have hp16 : p = 16 := by omega
+    subst hp16
+    rcases packLoopC_16 s 0 ⟨0⟩ (by omega) with ⟨g', hg'⟩ | herr
+    · rw [hg']
+      have hs : g'.setPositionC MAX_PLOIDY 16 = .error .setAllele := by
+        unfold Genotype.setPositionC
+        rw [if_neg (by omega), if_pos (by unfold MAX_ALLELES; omega)]
+      refine Or.inr (Or.inr ?_)
+      simp only [hs]
+    · rw [herr]; exact Or.inl rfl
+
+/-- **ploidy 0**: `ploidy - 1` wraps to 2³²−1 and the final loop runs into `get_position(16)` -/
+theorem ofIndex_ploidy_zero (i : Nat) : Genotype.ofIndex i 0 = .error .getPos := by
+  have : convertW i 0 = [] := rfl
+  unfold Genotype.ofIndex
+  rw [this]
+  decide
+
+/-- **narrowing**: the 64-bit index is reduced modulo 2³² -/
+theorem ofIndex_narrowing (i k p : Nat) : Genotype.ofIndex (i + 4294967296 * k) p = Genotype.ofIndex i p := by
+  unfold Genotype.ofIndex convertW
+  rw [Nat.add_mul_mod_self_left]
+
 end WhVerif.C19
